@@ -61,6 +61,17 @@ func sentinelsIn(v ssa.Value) []string {
 				for _, a := range x.Call.Args {
 					rec(a)
 				}
+			} else if inModule(f) {
+				// a module helper: the errors it may return
+				allInstrs(f, func(in ssa.Instruction) {
+					if r, isR := in.(*ssa.Return); isR {
+						for _, res := range r.Results {
+							if isErrorType(res.Type()) {
+								rec(res)
+							}
+						}
+					}
+				})
 			}
 		case *ssa.Slice:
 			rec(x.X)
@@ -201,6 +212,62 @@ type eqEdge struct {
 }
 
 func findEqEdges(fn *ssa.Function, isA, isB func(ssa.Value) bool) []eqEdge {
+	out := findEqEdgesDirect(fn, isA, isB)
+	// validator helpers: a module function that returns a nil error only behind the equal
+	// edge of such a comparison; the caller's test of its result stands for the comparison
+	for _, b := range fn.Blocks {
+		if len(b.Instrs) == 0 {
+			continue
+		}
+		ifi, ok := b.Instrs[len(b.Instrs)-1].(*ssa.If)
+		if !ok {
+			continue
+		}
+		bo, ok := ifi.Cond.(*ssa.BinOp)
+		if !ok || (bo.Op != token.EQL && bo.Op != token.NEQ) {
+			continue
+		}
+		var v ssa.Value
+		if isNilConst(bo.Y) {
+			v = bo.X
+		} else if isNilConst(bo.X) {
+			v = bo.Y
+		}
+		call, isC := v.(*ssa.Call)
+		if !isC || !isErrorType(call.Type()) {
+			continue
+		}
+		f := staticCallee(call)
+		if !inModule(f) || f == fn {
+			continue
+		}
+		inner := findEqEdgesDirect(f, isA, isB)
+		if len(inner) != 1 {
+			continue
+		}
+		reach := reachWithoutEdge(f, inner[0].ifi.Block(), inner[0].eqIx)
+		validator, sawNil := true, false
+		allInstrs(f, func(in ssa.Instruction) {
+			if r, isR := in.(*ssa.Return); isR && len(r.Results) == 1 && mayBeNilErr(r.Results[0], in.Block()) {
+				sawNil = true
+				if reach[in.Block()] {
+					validator = false
+				}
+			}
+		})
+		if !validator || !sawNil {
+			continue
+		}
+		ix := 1 // err != nil: the nil (accepted) branch is the false edge
+		if bo.Op == token.EQL {
+			ix = 0
+		}
+		out = append(out, eqEdge{ifi, ix, bo})
+	}
+	return out
+}
+
+func findEqEdgesDirect(fn *ssa.Function, isA, isB func(ssa.Value) bool) []eqEdge {
 	var out []eqEdge
 	for _, b := range fn.Blocks {
 		if len(b.Instrs) == 0 {
@@ -416,8 +483,63 @@ func ruleMagicDispatch(c *Check, p *Program, rule string) {
 // stand for the word. Propagation is per CFG edge so that boolean phis (the
 // SSA form of || and &&) are resolved by the incoming edge.
 func valueSetsAtAlias(fn *ssa.Function, alias func(ssa.Value) bool, start *ssa.BasicBlock, width uint) map[*ssa.BasicBlock]vset {
+	res, _ := valueSetsFull(fn, alias, start, width)
+	return res
+}
+
+type cfgEdge struct{ from, to *ssa.BasicBlock }
+
+// acceptSetOf: the set of values of parameter prm for which the boolean
+// function fn returns true; ok is false when a return value has a shape the
+// evaluator does not understand.
+func acceptSetOf(fn *ssa.Function, prm ssa.Value, width uint) (vset, bool) {
+	alias := func(v ssa.Value) bool { return stripSameWidth(v) == prm }
+	per, perEdge := valueSetsFull(fn, alias, fn.Blocks[0], width)
+	var acc vset
+	ok := true
+	var evalBool func(v ssa.Value, blk *ssa.BasicBlock, S vset, depth int) vset
+	evalBool = func(v ssa.Value, blk *ssa.BasicBlock, S vset, depth int) vset {
+		if depth > 6 {
+			ok = false
+			return nil
+		}
+		switch x := v.(type) {
+		case *ssa.Const:
+			if x.Value != nil && x.Value.Kind() == constant.Bool {
+				if constant.BoolVal(x.Value) {
+					return S
+				}
+				return nil
+			}
+		case *ssa.Phi:
+			if x.Block() == blk {
+				var out vset
+				for i, e := range x.Edges {
+					pred := blk.Preds[i]
+					out = out.union(evalBool(e, pred, perEdge[cfgEdge{pred, blk}], depth+1))
+				}
+				return out
+			}
+		}
+		if ps, okP := predSetAlias(v, alias, width); okP {
+			return S.intersect(ps)
+		}
+		ok = false
+		return nil
+	}
+	found := false
+	allInstrs(fn, func(in ssa.Instruction) {
+		if r, isR := in.(*ssa.Return); isR && len(r.Results) == 1 {
+			found = true
+			acc = acc.union(evalBool(r.Results[0], in.Block(), per[in.Block()], 0))
+		}
+	})
+	return acc, ok && found
+}
+
+func valueSetsFull(fn *ssa.Function, alias func(ssa.Value) bool, start *ssa.BasicBlock, width uint) (map[*ssa.BasicBlock]vset, map[cfgEdge]vset) {
 	res := map[*ssa.BasicBlock]vset{}
-	type edge struct{ from, to *ssa.BasicBlock }
+	type edge = cfgEdge
 	type item struct {
 		from, b *ssa.BasicBlock
 		s       vset
@@ -472,7 +594,7 @@ func valueSetsAtAlias(fn *ssa.Function, alias func(ssa.Value) bool, start *ssa.B
 			push(s, it.s)
 		}
 	}
-	return res
+	return res, perEdge
 }
 
 func predSetAlias(cond ssa.Value, alias func(ssa.Value) bool, width uint) (vset, bool) {
@@ -846,23 +968,9 @@ func ruleIsValid(c *Check, p *Program, rule string) {
 		return
 	}
 	c.Funcs[fname(fn)] = true
-	sets := valueSetsAt(fn, fn.Params[0], fn.Blocks[0], 8)
-	var acc vset
-	found := false
-	allInstrs(fn, func(in ssa.Instruction) {
-		if r, ok := in.(*ssa.Return); ok && len(r.Results) == 1 {
-			if k, ok := r.Results[0].(*ssa.Const); ok && k.Value != nil && k.Value.Kind() == constant.Bool {
-				found = true
-				if constant.BoolVal(k.Value) {
-					acc = acc.union(sets[in.Block()])
-				}
-			} else {
-				found = false
-			}
-		}
-	})
+	acc, found := acceptSetOf(fn, fn.Params[0], 8)
 	if !found {
-		c.Unknown(rule, "lz4block.BlockSizeIndex.IsValid", p.Pos(fn.Pos()), "accepted block-size codes are exactly 4..7", "returns are not boolean constants")
+		c.Unknown(rule, "lz4block.BlockSizeIndex.IsValid", p.Pos(fn.Pos()), "accepted block-size codes are exactly 4..7", "a return value is not a constant, a comparison of the code, or a phi of those")
 		return
 	}
 	want := vset{{4, 7}}
